@@ -9,7 +9,8 @@ THEOREMS = ["Genql.C19." + t for t in [
     "filterLoop_error", "mapE_error", "levelLoop_error", "execLevel_error", "evalArgs_error", "evalSel_error",
     "vf_fail_fails", "where_fault_propagates", "no_partial_result",
     "strict_step", "strict_in_error", "where_nested_fault_propagates", "select_nested_fault_propagates", "derived_fault_propagates",
-    "from_error_select", "union_fault_propagates", "subquery_error", "cte_fault_propagates", "nestedRun_on_error"]] + ["Genql.Obligations.C19.errors_not_swallowed"]
+    "from_error_select", "union_fault_propagates", "subquery_error", "cte_fault_propagates", "nestedRun_on_error",
+    "exists_error", "in_subquery_error", "sortRows_key_error"]] + ["Genql.Obligations.C19.errors_not_swallowed"]
 TRUSTED = ["the go/ast detector of error-swallowing shapes is syntactic (three shapes)", "sqlparser"]
 RULE = ("queries with a fault-injecting function in every clause position (WHERE, select list, HAVING, CTE body, derived table, "
         "row-scoped sub-query, union branch, IN sub-query, EXISTS, ON of sequential and PARALLEL joins with partner-less keys), an "
